@@ -22,7 +22,7 @@ RULE = ('case = (key material, creation time, TZ) or (key, form) or (emitted fie
         'or a protected/unlocked/copied/re-imported form; distinct = distinct case descriptors')
 ASSUMPTIONS = ['hashlib SHA-1', 'vf.ref.keys public-key body encoder (validated: it reproduces the fingerprints that make every fixture self-signature verify)']
 MIN_COUNTERS = {'fpr_compared': 400, 'forms_compared': 60, 'emitted_fields': 30, 'generated_keys': 6, 'leading_zero_keys': 20}
-BUDGET = {'quick': (150, 600), 'thorough': (1200, 3600)}
+BUDGET = {'quick': (600, 1500), 'thorough': (1200, 3600)}
 
 TIMES = [0, 1, 2**31 - 1, 2**31, 2**31 + 1, 2**32 - 1, 1109484000, 1130648400, 1667714400, 946684799, 86399, 86400]
 ALLKEYS = ['rsa1024_0', 'rsa2048_0', 'rsa3072_0', 'dsa1024_0', 'dsa2048_0', 'dsa3072_0', 'ecdsa_p256_0', 'ecdsa_p384_0', 'ecdsa_p521_0', 'ecdsa_k256_0',
